@@ -1,4 +1,124 @@
 import MetapypeModel.Model.Validate
+/-
+  C05 — whole-tree validation is the conjunction of node validations; metadata is opaque.
+  For every lexer, every table and every tree (induction on trees; no bound on size or depth).
+-/
 namespace Metapype
-theorem C05_placeholder : True := trivial
+
+mutual
+/-- the nodes tree validation visits: document order, not descending below a node named `metadata` -/
+def visible : Tree → Path → List (Path × Tree)
+  | .mk i n c tl p a e ns cs, path =>
+      (path, .mk i n c tl p a e ns cs) :: (if n = "metadata" then [] else visibleKids cs path 0)
+def visibleKids : List Tree → Path → Nat → List (Path × Tree)
+  | [], _, _ => []
+  | c :: cs, path, k => visible c (path ++ [k]) ++ visibleKids cs path (k + 1)
+end
+
+def nodeEvents (L : Lexer) (T : Tables) (pn : Path × Tree) : List PEv :=
+  (collectNodeT L T pn.2).map (fun ev => (pn.1, ev))
+
+mutual
+theorem collectTreeRaw_concat (L : Lexer) (T : Tables) : ∀ (t : Tree) (path : Path),
+    collectTreeRaw L T t path = (visible t path).flatMap (nodeEvents L T)
+  | .mk i n c tl p a e ns cs, path => by
+    simp only [collectTreeRaw, visible, List.flatMap_cons, nodeEvents]
+    congr 1
+    split
+    · simp
+    · exact collectKidsRaw_concat L T cs path 0
+theorem collectKidsRaw_concat (L : Lexer) (T : Tables) : ∀ (cs : List Tree) (path : Path) (k : Nat),
+    collectKidsRaw L T cs path k = (visibleKids cs path k).flatMap (nodeEvents L T)
+  | [], path, k => by simp [collectKidsRaw, visibleKids]
+  | c :: cs, path, k => by
+    simp only [collectKidsRaw, visibleKids, List.flatMap_append]
+    rw [collectTreeRaw_concat L T c, collectKidsRaw_concat L T cs]
+end
+
+/-- collecting mode: the tree's error list is the concatenation, in document order, of the per-node
+    lists (up to the point where an exception would escape, which C04 shows never happens) -/
+theorem C05_collect_concat (L : Lexer) (T : Tables) (t : Tree) :
+    collectTree L T t = cutAtCrashP ((visible t []).flatMap (nodeEvents L T)) := by
+  simp only [collectTree, collectTreeRaw_concat]
+
+theorem cutAtCrashP_eq_nil_iff : ∀ (l : List PEv), cutAtCrashP l = [] ↔ l = []
+  | [] => by simp [cutAtCrashP]
+  | (p, .err k) :: es => by simp [cutAtCrashP]
+  | (p, .crash e) :: es => by simp [cutAtCrashP]
+  | (p, .diverge) :: es => by simp [cutAtCrashP]
+
+/-- fail-fast: the tree validates iff every visible node validates on its own -/
+theorem C05_failfast_iff (L : Lexer) (T : Tables) (t : Tree) :
+    failfastTree L T t = none ↔ ∀ pn ∈ visible t [], failfastNode L T pn.2 = none := by
+  simp only [failfastTree, failfastNode, List.head?_eq_none_iff, C05_collect_concat, cutAtCrashP_eq_nil_iff,
+    List.flatMap_eq_nil_iff, nodeEvents, List.map_eq_nil_iff]
+
+/-- a node's own verdict depends only on its name, content, attributes and child names -/
+theorem C05_node_local (L : Lexer) (T : Tables) (t t' : Tree) (h1 : t.name = t'.name) (h2 : t.content = t'.content)
+    (h3 : t.attrs = t'.attrs) (h4 : t.childNames = t'.childNames) : collectNodeT L T t = collectNodeT L T t' := by
+  simp only [collectNodeT, h1, h2, h3, h4]
+
+/-- for a `metadata` node only the *number* of children matters -/
+theorem collectNode_metadata_kids (L : Lexer) (T : Tables) (c : Option String) (a : Dict) (ks ks' : List String)
+    (h : ks.length = ks'.length) : collectNode L T "metadata" c a ks = collectNode L T "metadata" c a ks' := by
+  simp only [collectNode]
+  cases T.ruleOf "metadata" with
+  | none => rfl
+  | some o =>
+    cases o with
+    | none => rfl
+    | some r => simp only [validateRule, validateChildrenRaw, if_true, h]
+
+def stub : Tree := .mk "" "" none none none [] [] [] []
+
+mutual
+/-- forget everything below `metadata` elements except how many children they have -/
+def eraseBelowMetadata : Tree → Tree
+  | .mk i n c tl p a e ns cs =>
+      if n = "metadata" then .mk i n c tl p a e ns (cs.map (fun _ => stub))
+      else .mk i n c tl p a e ns (eraseBelowMetadataL cs)
+def eraseBelowMetadataL : List Tree → List Tree
+  | [] => []
+  | c :: cs => eraseBelowMetadata c :: eraseBelowMetadataL cs
+end
+
+theorem eraseBelowMetadata_name : ∀ (t : Tree), (eraseBelowMetadata t).name = t.name
+  | .mk i n c tl p a e ns cs => by simp only [eraseBelowMetadata]; split <;> rfl
+
+theorem eraseBelowMetadataL_names : ∀ (cs : List Tree), (eraseBelowMetadataL cs).map Tree.name = cs.map Tree.name
+  | [] => rfl
+  | c :: cs => by simp only [eraseBelowMetadataL, List.map_cons, eraseBelowMetadata_name, eraseBelowMetadataL_names cs]
+
+mutual
+theorem collectTreeRaw_erase (L : Lexer) (T : Tables) : ∀ (t : Tree) (path : Path),
+    collectTreeRaw L T (eraseBelowMetadata t) path = collectTreeRaw L T t path
+  | .mk i n c tl p a e ns cs, path => by
+    simp only [eraseBelowMetadata]
+    by_cases hn : n = "metadata"
+    · subst hn
+      simp only [if_true, collectTreeRaw, collectNodeT, Tree.name, Tree.content, Tree.attrs, Tree.childNames, Tree.children]
+      rw [collectNode_metadata_kids L T c a _ (cs.map Tree.name) (by simp)]
+    · simp only [if_neg hn, collectTreeRaw, collectNodeT, Tree.name, Tree.content, Tree.attrs, Tree.childNames, Tree.children]
+      rw [eraseBelowMetadataL_names cs, collectKidsRaw_erase L T cs path 0]
+theorem collectKidsRaw_erase (L : Lexer) (T : Tables) : ∀ (cs : List Tree) (path : Path) (k : Nat),
+    collectKidsRaw L T (eraseBelowMetadataL cs) path k = collectKidsRaw L T cs path k
+  | [], path, k => rfl
+  | c :: cs, path, k => by
+    simp only [eraseBelowMetadataL, collectKidsRaw]
+    rw [collectTreeRaw_erase L T c, collectKidsRaw_erase L T cs]
+end
+
+/-- nothing below a metadata element (beyond the number of its children) influences the outcome -/
+theorem C05_metadata_opaque (L : Lexer) (T : Tables) (t t' : Tree)
+    (h : eraseBelowMetadata t = eraseBelowMetadata t') : collectTree L T t = collectTree L T t' := by
+  simp only [collectTree]
+  rw [← collectTreeRaw_erase L T t, ← collectTreeRaw_erase L T t', h]
+
+/-- non-vacuity: two different foreign subtrees under `metadata` are identified -/
+example : eraseBelowMetadata (.mk "1" "additionalMetadata" none none none [] [] []
+            [.mk "2" "metadata" none none none [] [] [] [.mk "3" "foo" (some "x") none none [] [] [] []]]) =
+          eraseBelowMetadata (.mk "1" "additionalMetadata" none none none [] [] []
+            [.mk "2" "metadata" none none none [] [] [] [.mk "9" "bar" none none none [("a", "b")] [] [] [stub]]]) := by
+  simp [eraseBelowMetadata, eraseBelowMetadataL]
+
 end Metapype
